@@ -24,7 +24,7 @@ import (
 // real sockets and goroutines.
 
 type BOp struct {
-	Op     string `json:"op"` // open | close | reset | destclose | data
+	Op     string `json:"op"` // open | openzero | close | reset | destclose | data
 	Peer   int    `json:"peer,omitempty"`
 	ID     uint64 `json:"id,omitempty"`
 	Serial int    `json:"serial,omitempty"` // destclose: which accepted destination connection
@@ -133,6 +133,7 @@ type destConn struct {
 	mu     sync.Mutex
 	got    []uint64
 	closed bool
+	eofAt  int // number of data items received when the read side ended; -1 while open
 }
 
 type bookHandler interface {
@@ -192,13 +193,14 @@ func NewBookRunner(kind string, maxConns int) (*BookRunner, error) {
 			if err != nil {
 				return
 			}
-			d := &destConn{c: c, port: c.RemoteAddr().(*net.TCPAddr).Port}
+			d := &destConn{c: c, port: c.RemoteAddr().(*net.TCPAddr).Port, eofAt: -1}
 			go func() {
 				buf := make([]byte, 8)
 				for {
 					if _, err := readFull(c, buf); err != nil {
 						d.mu.Lock()
 						d.closed = true
+						d.eofAt = len(d.got)
 						d.mu.Unlock()
 						return
 					}
@@ -429,6 +431,33 @@ func (b *BookRunner) Step(op BOp) BObs {
 			o.Res = 2
 			o.Note = "destination never accepted"
 		}
+	case "openzero":
+		// an open whose ephemeral public key is all zero: the key exchange fails
+		// after the destination checks; no connection may remain accounted for
+		b.req++
+		var zero [crypto.KeySize]byte
+		port := b.ln.Addr().(*net.TCPAddr).Port
+		var err error
+		if b.ex != nil {
+			err = b.ex.HandleStreamOpen(context.Background(), op.ID, b.req, PID(op.Peer), "127.0.0.1", uint16(port), zero)
+		} else {
+			err = b.fw.HandleStreamOpen(context.Background(), op.ID, b.req, PID(op.Peer), "k", zero)
+		}
+		if err != nil {
+			o.Res = 1 // refused up front (connection limit)
+			break
+		}
+		o.Res = 3
+		if !b.w.waitFor(func(evs []BWritten) bool {
+			for _, e := range evs {
+				if e.Kind == "err" && e.Peer == op.Peer && e.ID == op.ID {
+					return true
+				}
+			}
+			return false
+		}) {
+			o.Note += "no STREAM_OPEN_ERR for the zero-key open; "
+		}
 	case "close":
 		b.h.HandleStreamClose(PID(op.Peer), op.ID)
 	case "reset":
@@ -491,6 +520,8 @@ func CoqBOp(o BOp) string {
 	switch o.Op {
 	case "open":
 		return fmt.Sprintf("BOpen %s %s", vh.CoqN(uint64(o.Peer)), vh.CoqN(o.ID))
+	case "openzero":
+		return fmt.Sprintf("BOpenBadKey %s %s", vh.CoqN(uint64(o.Peer)), vh.CoqN(o.ID))
 	case "close":
 		return fmt.Sprintf("BClose %s %s", vh.CoqN(uint64(o.Peer)), vh.CoqN(o.ID))
 	case "reset":
@@ -521,4 +552,79 @@ func CoqBObs(o BObs) string {
 		got[i] = fmt.Sprintf("(%s, %s)", vh.CoqN(g[0]), vh.CoqN(g[1]))
 	}
 	return fmt.Sprintf("mkbobs %s %s %s %s %s %s", vh.CoqN(uint64(o.Res)), vh.CoqList(closes), vh.CoqZ(o.Count), vh.CoqList(recs), vh.CoqList(closed), vh.CoqList(got))
+}
+
+// ---------------------------------------------------------------------------
+// C18 at the receiving endpoints: STREAM_DATA frames, some carrying FIN_WRITE
+// together with data, delivered to a real exit.Handler / forward.Handler whose
+// destination records the bytes and then the end of stream.
+
+type FinFrame struct {
+	Fin bool   `json:"fin"`
+	Tag uint64 `json:"tag"` // 0 = sealed empty plaintext (what meshConn.CloseWrite sends)
+}
+
+// XEv is what the destination saw: Kind 0 = data Tag, Kind 1 = end of stream.
+type XEv struct {
+	Kind int    `json:"kind"`
+	Tag  uint64 `json:"tag"`
+}
+
+// RunExitFin opens one tunnel on a fresh handler, delivers the frames and
+// returns what the destination observed, in order.
+func RunExitFin(kind string, frames []FinFrame) ([]XEv, string) {
+	b, err := NewBookRunner(kind, 4)
+	if err != nil {
+		return nil, err.Error()
+	}
+	defer b.Close()
+	o := b.Step(BOp{Op: "open", Peer: 1, ID: 1})
+	if o.Res != 0 || len(b.dests) != 1 || b.keys[0] == nil {
+		return nil, "open failed: " + o.Note
+	}
+	d := b.dests[0]
+	wantData, wantEOF := 0, false
+	for _, f := range frames {
+		var pt []byte
+		if f.Tag != 0 {
+			pt = be8(f.Tag)
+			wantData++
+		}
+		ct, err := b.keys[0].Encrypt(pt)
+		if err != nil {
+			return nil, err.Error()
+		}
+		var flags uint8
+		if f.Fin {
+			flags = protocol.FlagFinWrite
+			wantEOF = true
+		}
+		b.h.HandleStreamData(PID(1), 1, ct, flags)
+		if f.Fin {
+			break // nothing may follow the end-of-write signal
+		}
+	}
+	// the destination's reader runs asynchronously: wait for the end of stream if
+	// one was sent, otherwise for all the data
+	waitUntil(3*time.Second, func() bool {
+		d.mu.Lock()
+		defer d.mu.Unlock()
+		if wantEOF {
+			return d.eofAt >= 0
+		}
+		return len(d.got) >= wantData
+	})
+	d.mu.Lock()
+	defer d.mu.Unlock()
+	var evs []XEv
+	for i, t := range d.got {
+		if d.eofAt == i {
+			evs = append(evs, XEv{Kind: 1})
+		}
+		evs = append(evs, XEv{Kind: 0, Tag: t})
+	}
+	if d.eofAt >= len(d.got) {
+		evs = append(evs, XEv{Kind: 1})
+	}
+	return evs, ""
 }
